@@ -142,7 +142,7 @@ Ev == Rec[l]
 BE == Rec[cur]                      \* the Begin event of the case in progress
 Adv == l' = l + 1
 Keep == UNCHANGED <<r, cur, skip, cpath, creqv, stsv>>
-StageNames == {"StageCanon", "StageParams", "StageAuth", "StagePre", "StageSts"}
+StageNames == {"StageCanon", "StageParams", "StageAuth", "StagePre", "StageSts", "StageLate"}
 
 \* an event no specification action accepts: report it, skip the rest of the case, resume at the
 \* next Begin (so the remainder of the trace is still examined)
@@ -273,6 +273,10 @@ StageOk(e) ==
             IF r.err.rule \in {11, 12, 13, 14} THEN ErrIs(e, r.err.kind) ELSE r.err.rule = 0 /\ e.res = "ok"
       [] e.ev = "StageSts" ->
             /\ r.err.rule = 0 /\ stsv # <<>> /\ e.sts = stsv
+      \* the authenticator of a request that was fresh at cfg.now, validated one hour later with the same tolerance:
+      \* expired (rule 11), and the key provider is not consulted (C04, C14: freshness is judged on every validation)
+      [] e.ev = "StageLate" ->
+            /\ r.err.rule = 0 /\ ErrIs(e, "SignatureDoesNotMatch") /\ e.provider_events = 0
 TrStage ==
     /\ Ev.ev \in StageNames /\ ~skip /\ Adv
     /\ IF StageOk(Ev) THEN UNCHANGED vars /\ Keep ELSE RejectEv(Where)
